@@ -653,6 +653,22 @@ theorem C14_addresses_parse (parse : ParseFn) (f : Framing) (tbl : Table) (k : K
 theorem C14_foreign_address_ignored (a : Attr) (h : a.name.space ≠ "") : ownAddr a = false := by
   simp [ownAddr, h]
 
+set_option maxRecDepth 200000 in
+/-- **address table** (probe fact): the real multiplexer holding the bare wildcard of the stanza's
+type, sent a stanza of every kind × to × from over {absent, canonical, rewritten by `jid.Parse`,
+three rejected forms, empty attribute}: it returns an error without invoking the handler, or
+hands it a stanza value with the header, exactly as the attribute loop of the model run with
+`jid.Parse`'s own verdicts on those addresses (`parseTable`, regenerated as well) -/
+theorem C14_probe_addr :
+    Generated.C14.addrTable = Generated.C14.parseTable.map addrTableModel := by decide
+
+/-- **exactly the rejected own addresses end the router**: the attribute loop fails if and only if
+some own, non-empty `to` / `from` of the start element is rejected by the parser — nothing else
+(a foreign attribute, an empty address, a strange type or id) can make a stanza undeliverable -/
+theorem C14_address_error_iff (parse : ParseFn) (k : Kind) (attrs : List Attr) :
+    stanzaHdrP parse k attrs = none ↔ ∃ a ∈ attrs, ownAddr a = true ∧ parse a.value = none :=
+  foldl_hdrStepP_none_iff parse k attrs _
+
 /-! ### dispatches in flight on one multiplexer -/
 
 /-- **overlapping dispatches are independent**: several dispatches in flight on one multiplexer
